@@ -173,7 +173,7 @@ func genC18(o *Out, rng *rand.Rand, tier string) {
 		if len(sc.sent) > 0 {
 			rec["frame"] = B(sc.sent[0])
 		}
-		o.Emit(rec, cls, append(append([]byte(bound.String()+dst.String()), payload...)), len(payload) > 0)
+		o.Emit(rec, cls, append([]byte(bound.String()+dst.String()), payload...), len(payload) > 0)
 	}
 	ips := []net.IP{nil, net.IPv4zero, net.IPv4bcast, net.IPv4(10, 0, 0, 1), net.IPv4(192, 168, 255, 254)}
 	randIPx := func() net.IP {
